@@ -442,6 +442,12 @@ func (s *session) EnqueueBytesAndSend(msg []byte) {
 	s.sendMutex.Lock()
 	defer s.sendMutex.Unlock()
 
+	// A replay may still go out after our Logout; what the application has queued since must not ride
+	// along (it stays in the store, as when SendAppMessages finds the session logged out).
+	if _, loggingOut := s.State.(logoutState); loggingOut {
+		s.dropQueued()
+	}
+
 	s.toSend = append(s.toSend, msg)
 	s.sendQueued(true)
 }
